@@ -111,7 +111,30 @@ pub fn gen_image<C: ImgCol>(d: &mut Dec, r: i32, max: u32) -> ImageItem {
     let mut data = Vec::with_capacity(n);
     let mode = d.u(0, 3);
     let mut x = d.raw();
+    // derived choice: a third of the xorshift images are made of uniform rows / runs instead (bytes 0x00,
+    // 0xFF or one other value per row, or per run of 1..=8 bytes) — the content a real bitmap has
+    let runs = if mode >= 2 { d.derived(0x1a6e, 6) } else { 0 };
+    let bpr = bytes_per_row(size.width, C::BPP).max(1);
+    let mut cur = 0u8;
+    let mut left = 0u32;
     for i in 0..n {
+        if runs == 4 || runs == 5 {
+            if (runs == 4 && i % bpr == 0) || (runs == 5 && left == 0) {
+                x ^= x << 13;
+                x ^= x >> 17;
+                x ^= x << 5;
+                cur = match x % 4 {
+                    0 => 0x00,
+                    1 => 0xFF,
+                    2 => cur,
+                    _ => (x >> 8) as u8,
+                };
+                left = 1 + (x >> 16) % 8;
+            }
+            left = left.saturating_sub(1);
+            data.push(cur);
+            continue;
+        }
         data.push(match mode {
             0 => d.u(0, 255) as u8,
             1 => (i as u32).wrapping_mul(37).wrapping_add((i as u32 >> 8).wrapping_mul(7)).wrapping_add(x) as u8,
@@ -540,7 +563,16 @@ impl<C: ImgCol> Item<C> {
     /// `draw()`; for text the returned next position.
     pub fn draw<D: DrawTarget<Color = C, Error = Fault>>(&self, t: &mut D) -> Result<Option<Point>, Fault> {
         match self {
-            Item::Styled(s, st) => with_shape!(s, |p| p.into_styled(*st).draw(t)).map(|_| None),
+            // (three equivalent routes, chosen by the style's width: `into_styled().draw()`, `Styled::new().draw()`,
+            // `StyledDrawable::draw_styled`)
+            Item::Styled(s, st) => {
+                use embedded_graphics::primitives::{Styled, StyledDrawable};
+                match st.stroke_width % 3 {
+                    0 => with_shape!(s, |p| p.into_styled(*st).draw(t)).map(|_| None),
+                    1 => with_shape!(s, |p| Styled::new(*p, *st).draw(t)).map(|_| None),
+                    _ => with_shape!(s, |p| p.draw_styled(st, t)).map(|_| None),
+                }
+            }
             Item::Polyline(p) => Polyline::new(&p.pts).translate(p.offset).into_styled(p.style).draw(t).map(|_| None),
             Item::Image(i) => C::visit_image(i, DrawV(t)).map(|_| None),
             Item::Text(x) => x.build().draw(t).map(Some),
@@ -617,7 +649,14 @@ impl<C: ImgCol> Item<C> {
 
     pub fn bounding_box(&self) -> Rectangle {
         match self {
-            Item::Styled(s, st) => with_shape!(s, |p| p.into_styled(*st).bounding_box()),
+            Item::Styled(s, st) => {
+                use embedded_graphics::primitives::StyledDimensions;
+                if st.stroke_width % 2 == 0 {
+                    with_shape!(s, |p| p.into_styled(*st).bounding_box())
+                } else {
+                    with_shape!(s, |p| p.styled_bounding_box(st))
+                }
+            }
             Item::Polyline(p) => Polyline::new(&p.pts).translate(p.offset).into_styled(p.style).bounding_box(),
             Item::Image(i) => C::visit_image(i, BoxV(None)),
             Item::Text(x) => x.build().bounding_box(),
